@@ -208,7 +208,15 @@ def confirm_pending(pid, out, scratch, tdir, logdir, max_confirm=3):
 def write_evidence(pid, tier, seed, ev, out, wall):
     prop = P.PROPS[pid]
     kres = ev.get("k_results", [])
-    tres = ev.get("t_results", {})
+    tres = dict(ev.get("t_results", {}))
+    mres = ev.get("m_results", {})
+    if mres:
+        # engine M contributes its obligations / programs / bounds next to engine T's
+        for k in ("programs", "obligations", "solver_s"):
+            tres[k] = tres.get(k, 0) + mres.get(k, 0)
+        tres["distinct_nontrivial"] = tres.get("distinct_nontrivial", 0) + mres.get("unsat", 0)
+        for k in ("samples", "functions", "bounds", "assumptions"):
+            tres[k] = list(tres.get(k, [])) + list(mres.get(k, []))
     n_harness = len(kres)
     n_checks = sum(k["n_checks"] for k in kres)
     sat_cov = sum(1 for k in kres for c in k["covers"] if c["status"] == "SATISFIED" and not c["desc"].startswith("reached end"))
@@ -249,6 +257,8 @@ def write_evidence(pid, tier, seed, ev, out, wall):
     for k in ("programs", "disagreements_checked", "obligations", "k_codegen_s", "k_wall_s"):
         if k in tres:
             cov["t_" + k] = tres[k]
+    if mres:
+        cov["engine_m"] = {k: mres[k] for k in ("programs", "obligations", "unsat", "sat", "loud_failures_as_prescribed", "violating_observations", "failing_shapes", "solver_s", "wall_s") if k in mres}
     e = {
         "property_id": pid, "tier": tier, "seed": seed, "level": level,
         "coverage": cov,
@@ -286,6 +296,10 @@ def main(argv=None):
     try:
         if "K" in P.PROPS[pid]["engines"]:
             run_engine_k(pid, a.tier, seed, out, ev)
+        if "M" in P.PROPS[pid]["engines"]:
+            # engine M first: seconds; it reports module-level mis-bindings with a concrete host environment
+            from . import mv
+            mv.run_engine_m(pid, a.tier, seed, out, ev)
         if "T" in P.PROPS[pid]["engines"]:
             from . import tv
             tv.run_engine_t(pid, a.tier, seed, out, ev)
